@@ -427,6 +427,10 @@ template <class T> struct AccCheck {
     if (!same(v, a._s)) FAIL("acc-value", "operator() = " + V(v) + " but the high word is " + V(a._s));
     bool normal = normalised(a);
     { Dy u = ulp_of(a._s); if (!u.zero()) track(ti, W_ACCNORM, (double)(Dy::of(a._t).abs().approx() / u.approx()), a._s, a._t); }
+    // A zero high word with a non-zero low word is not the documented "1 ulp" looseness (Add: "if (_s == 0) _s = u"): the
+    // reported sum would be 0 although something is held.  Never on the unchanged tree; kept apart from acc-unnormalised so
+    // that the known finding for that class cannot hide it.
+    if (a._s == 0 && a._t != 0) { FAIL("acc-high-word-zero", "state s = " + V(a._s) + ", t = " + V(a._t) + ": operator() reports 0 while " + hxd(m.E.approx()) + " is held"); normal = true; }
     if (!normal) ctx.count("acc_unnormalised_states");
     if (!normal) FAIL("acc-unnormalised", "state s = " + V(a._s) + ", t = " + V(a._t) + ": the low word exceeds 2 ulp of the high word, operator() = " + V(v) + " but the exact sum is " + hxd(m.E.approx()));
     else { Dy ev = (Dy::of(v) - m.E).abs(), u = ulp_of(v);
@@ -441,7 +445,8 @@ template <class T> struct AccCheck {
       if (!same(r, c())) FAIL("acc-sum-consistent", "a(" + V(y) + ") = " + V(r) + " but (a += y)() = " + V(c()));
       if (std::isfinite(r) && std::isfinite(c._t)) {
         Dy Ey = m.E + Dy::of(y), ev = (Dy::of(r) - Ey).abs(), u = ulp_of(r);
-        if (!normalised(c)) FAIL("acc-unnormalised", "a(" + V(y) + ") = " + V(r) + " while the exact sum is " + hxd(Ey.approx()) + ": after the addition s = " + V(c._s) + ", t = " + V(c._t) + " (low word exceeds 2 ulp of the high word)");
+        if (c._s == 0 && c._t != 0) FAIL("acc-high-word-zero", "a(" + V(y) + ") = " + V(r) + ": after the addition s = 0 but t = " + V(c._t));
+        else if (!normalised(c)) FAIL("acc-unnormalised", "a(" + V(y) + ") = " + V(r) + " while the exact sum is " + hxd(Ey.approx()) + ": after the addition s = " + V(c._s) + ", t = " + V(c._t) + " (low word exceeds 2 ulp of the high word)");
         else {
           Dy By = bound(m.A + Dy::of(y).abs());
           if (!u.zero()) track(ti, W_ACCSUM, cmp(ev, By) > 0 ? (double)((ev - By).approx() / u.approx()) : 0.0, a._s, y);
